@@ -348,6 +348,12 @@ func (x *ctx) montgomery(rng *rand.Rand) {
 	for i := 0; i < 60; i++ {
 		us = append(us, mon.Bytes(rng, 32))
 	}
+	// u that differ from -1 (the one u SetMontgomery must refuse) and from each other only by word patterns that cancel
+	// under checksum-style comparisons
+	pm1 := ref.LE32(new(big.Int).Sub(ref.P, big.NewInt(1)))
+	for _, d := range gen.CancelPatterns(rng, 80) {
+		us = append(us, gen.XorBytes(pm1, d), gen.XorBytes(us[rng.IntN(len(us))], d))
+	}
 	for _, ub := range us {
 		for sign := uint8(0); sign < 2; sign++ {
 			u := ref.FromLE(ub)
@@ -397,6 +403,23 @@ func (x *ctx) montgomery(rng *rand.Rand) {
 			if m.Equal(&m2) != 1 {
 				r.Violate("montgomery/Equal", det(), x.c)
 			}
+			for _, d := range gen.CancelPatterns(rng, 3) {
+				var m3 curve.MontgomeryPoint
+				copy(m3[:], gen.XorBytes(ub, d))
+				u3 := ref.FromLE(m3[:])
+				u3.And(u3, ref.Mask255)
+				u3.Mod(u3, ref.P)
+				var c1, c3 curve.CompressedEdwardsY
+				copy(c1[:], ub)
+				copy(c3[:], m3[:])
+				r.EvalN(2)
+				if (m.Equal(&m3) == 1) != (u.Cmp(u3) == 0) {
+					r.Violate("montgomery/Equal/cancelling-difference", fmt.Sprintf("Equal(%x, %x) = %d; %s", ub, m3[:], m.Equal(&m3), det()), x.c)
+				}
+				if (c1.Equal(&c3) == 1) != bytes.Equal(c1[:], c3[:]) {
+					r.Violate("edwards/CompressedEdwardsY.Equal/cancelling-difference", fmt.Sprintf("Equal(%x, %x) = %d", c1[:], c3[:], c1.Equal(&c3)), x.c)
+				}
+			}
 		}
 	}
 }
@@ -444,6 +467,67 @@ func runCase(r *mon.Run, c Case) {
 		for i := 0; i < 300; i++ {
 			x.decodeString(mon.Bytes(rng, 32))
 		}
+	case "structured-x":
+		// points whose x-coordinate (not only whose encoding) has structure: low limbs saturated just below the carry
+		// of +19, words that cancel, p-1-j, tiny values. x is chosen, y solved for from the curve equation; the string
+		// (y, sign of x) is decoded and the result used as a point (the sign of x is only visible to a reference for x)
+		var xs []*big.Int
+		for _, k := range []uint{26, 51, 77, 102, 128, 153, 179, 204, 230} {
+			for j := int64(0); j < 19; j++ {
+				for rep := 0; rep < 1; rep++ {
+					t := new(big.Int).SetBytes(mon.Bytes(rng, 32))
+					v := new(big.Int).Lsh(t, k)
+					v.Add(v, new(big.Int).Lsh(big.NewInt(1), k))
+					v.Add(v, big.NewInt(j-19))
+					xs = append(xs, v.Mod(v, ref.P))
+				}
+			}
+		}
+		for _, d := range gen.CancelPatterns(rng, 40) {
+			xs = append(xs, new(big.Int).Mod(ref.FromLE(d), ref.P))
+		}
+		for j := int64(1); j < 40; j++ {
+			xs = append(xs, big.NewInt(j), new(big.Int).Sub(ref.P, big.NewInt(j)))
+		}
+		found := 0
+		for _, xv := range xs {
+			// y^2 = (1 + x^2) / (1 - d x^2)
+			xx := new(big.Int).Mul(xv, xv)
+			xx.Mod(xx, ref.P)
+			num := new(big.Int).Add(big.NewInt(1), xx)
+			den := new(big.Int).Sub(big.NewInt(1), new(big.Int).Mul(ref.D, xx))
+			den.Mod(den, ref.P)
+			ok, y := ref.SqrtRatioM1(new(big.Int).Mod(num, ref.P), den)
+			if !ok {
+				continue
+			}
+			for _, yv := range []*big.Int{y, new(big.Int).Sub(ref.P, y)} {
+				yv = new(big.Int).Mod(yv, ref.P)
+				b := yString(yv, xv.Bit(0))
+				d := ref.Decode(b)
+				if !d.OK || d.Pt.X.Cmp(xv) != 0 {
+					mon.Fatalf("structured-x construction: reference decodes %x to another x", b)
+				}
+				found++
+				x.decodeString(b)
+				det := func() string { return fmt.Sprintf("in=%x (x=%x)", b, xv) }
+				var cy curve.CompressedEdwardsY
+				copy(cy[:], b)
+				if p, err := curve.NewEdwardsPoint().SetCompressedY(&cy); err == nil {
+					x.usable("SetCompressedY(structured x)", p, d.Pt, det)
+					// the negative of the point encodes with the other sign bit
+					nb := append([]byte{}, b...)
+					nb[31] ^= 0x80
+					if got := enc(curve.NewEdwardsPoint().Neg(p)); xv.Sign() != 0 && !bytes.Equal(got, nb) {
+						r.Violate("edwards/encode/sign-of-x", fmt.Sprintf("-P encodes to %x, want %x; %s", got, nb, det()), x.c)
+					}
+				}
+			}
+		}
+		r.HistN("structured-x/points", int64(found))
+		if found < 50 {
+			r.Inconclusive("structured-x: too few constructible points")
+		}
 	case "lengths":
 		x.lengths(rng)
 	case "points":
@@ -468,6 +552,9 @@ func main() {
 		cases = append(cases, Case{Kind: "yrange", Lo: lo, Hi: lo + 32})
 	}
 	cases = append(cases, Case{Kind: "special"}, Case{Kind: "lengths", Stream: "c10/lengths"})
+	for i := 0; i < r.Pick(2, 20); i++ {
+		cases = append(cases, Case{Kind: "structured-x", Stream: fmt.Sprintf("c10/structured-x/%d", i)})
+	}
 	for i := 0; i < r.Pick(30, 600); i++ {
 		cases = append(cases, Case{Kind: "random", Stream: fmt.Sprintf("c10/random/%d", i)})
 	}
